@@ -402,6 +402,216 @@ def nested_family(rng, xpath=True):
     return m, [D(top, None, ch)], exp
 
 
+def lead_default_family(rng):
+    """(module, instance) for lyd_validate_siblings_schema_r's search of the existing case: the selected case STARTS (in
+    schema order) with default leaves and a non-presence container that are usually left implicit and is selected only
+    by a LATER sibling; inside the case every constraint kind, randomly violated or satisfied: mandatory leaf, mandatory
+    nested choice, list with min/max-elements and unique, leaf-list with min-elements; a second choice with a default
+    case that starts with defaults too (nested default case, list with max-elements / unique). XPath-free: the
+    expectation is validenc.py_violations, the Coq model takes the same cases."""
+    Y = yanggen
+    S, I = Y.TString(), Y.TInt("int8")
+    d1, dnx = Y.SLeaf("d1", I, default="1"), Y.SLeaf("dnx", S, default="n")
+    dnp = Y.SContainer("dnp", [dnx])
+    e, mleaf = Y.SLeaf("e", S), Y.SLeaf("mleaf", S, mandatory=True)
+    n1l, n2l = Y.SLeaf("n1l", S), Y.SLeaf("n2l", S)
+    nch = Y.SChoice("nch", [("n1", [n1l]), ("n2", [n2l])], mandatory=True)
+    lk, lu, lv = Y.SLeaf("lk", Y.TString(length=(1, 5))), Y.SLeaf("lu", S), Y.SLeaf("lv", S, default="v")
+    lst = validenc.SListU("lst", ["lk"], [lk, lu, lv], minel=1, maxel=2)
+    lst.uniques, lst.unique = [["lu"], ["lv"]], None
+    ll = Y.SLeafList("ll", S, minel=1, maxel=3)
+    be, bd = Y.SLeaf("be", S), Y.SLeaf("bd", I, default="2")
+    ch = Y.SChoice("ch", [("a", [d1, dnp, e, mleaf, nch, lst, ll]), ("b", [bd, be])])
+    # default case with defaults first, a nested default case, then constrained lists
+    f1, f2, fe = Y.SLeaf("f1", I, default="4"), Y.SLeaf("f2", S, default="w"), Y.SLeaf("fe", S)
+    gk, gu = Y.SLeaf("gk", Y.TString(length=(1, 5))), Y.SLeaf("gu", S)
+    gl = validenc.SListU("gl", ["gk"], [gk, gu], maxel=2)
+    gl.uniques, gl.unique = [["gu"]], None
+    inner = Y.SChoice("inner", [("i1", [f2, fe]), ("i2", [Y.SLeaf("i2l", S)])], default="i1")
+    ch2 = Y.SChoice("ch2", [("dc", [f1, inner, gl]), ("oc", [Y.SLeaf("ol", S)])], default="dc")
+    top = Y.SContainer("top", [ch, ch2, Y.SLeaf("z", S)], presence=True)
+    m = Y.Module("m1", [top])
+    D = lambda sn, v=None, c=None: Y.DNode(sn, v, c)           # noqa: E731
+    out = []
+    r = rng.random()
+    if r < 0.75:                                               # case a, selected by a later sibling
+        if rng.random() < 0.15:
+            out.append(D(d1, "3"))
+        if rng.random() < 0.15:
+            out.append(D(dnp, None, [D(dnx, "x")]))
+        sel = [x for x in ("e", "mleaf", "nch", "lst", "ll") if rng.random() < 0.6] or [rng.choice(["e", "lst", "ll", "nch"])]
+        if "e" in sel:
+            out.append(D(e, "e"))
+        if "mleaf" in sel:
+            out.append(D(mleaf, "m"))
+        if "nch" in sel:
+            out.append(D(n1l, "1") if rng.random() < 0.5 else D(n2l, "2"))
+        if "lst" in sel:
+            for i in range(rng.choice([1, 2, 2, 3])):
+                c = [D(lk, "k%d" % i)]
+                if rng.random() < 0.7:
+                    c.append(D(lu, rng.choice(["p", "q", "r"])))
+                if rng.random() < 0.4:
+                    c.append(D(lv, rng.choice(["v", "w"])))
+                out.append(D(lst, None, c))
+        if "ll" in sel:
+            for i in range(rng.choice([1, 2, 3, 4])):
+                out.append(D(ll, "l%d" % i))
+    elif r < 0.9:
+        out.append(D(be, "b"))
+    r = rng.random()
+    if r < 0.6:                                                # default case dc, explicit data after the defaults
+        if rng.random() < 0.4:
+            out.append(D(fe, "f"))
+        for i in range(rng.choice([0, 1, 2, 3])):
+            c = [D(gk, "g%d" % i)]
+            if rng.random() < 0.7:
+                c.append(D(gu, rng.choice(["p", "q"])))
+            out.append(D(gl, None, c))
+    elif r < 0.75:
+        out.append(D(top.children[1].cases[1][1][0], "o"))
+    out.append(D(top.children[2], "z"))
+    return m, [D(top, None, out)]
+
+
+# ---- type restrictions (RFC 7950 section 9): every built-in type, expectation from the predicates written here
+TYPE_MI = """module mi { yang-version 1.1; namespace "urn:verif:mi"; prefix mi;
+  identity A; identity B; identity X;
+  identity C { base A; }
+  identity D { base A; base B; }
+  identity E { base D; }
+  identity F { base B; }
+  identity AX { base A; base X; }
+}"""
+ID_BASES = {"mi:A": [], "mi:B": [], "mi:X": [], "mi:C": ["mi:A"], "mi:D": ["mi:A", "mi:B"], "mi:E": ["mi:D"], "mi:F": ["mi:B"],
+            "mi:AX": ["mi:A", "mi:X"], "m1:G": ["mi:C", "mi:F"], "m1:H": ["mi:E"], "m1:K": ["m1:G", "mi:X"], "m1:L": []}
+
+
+def id_ancestors(x):
+    out = set()
+    todo = list(ID_BASES.get(x, []))
+    while todo:
+        b = todo.pop()
+        if b not in out:
+            out.add(b)
+            todo += ID_BASES.get(b, [])
+    return out
+
+
+def idref_ok(bases):
+    """9.10.2: the value is an identity DERIVED (transitively, not the base itself) from ALL the bases"""
+    return lambda v: v in ID_BASES and all(b in id_ancestors(v) for b in bases)
+
+
+def _int_ok(lo, hi, ranges=None):
+    def ok(v):
+        import re as _re
+        if not _re.fullmatch(r"[+-]?[0-9]+", v):
+            return False
+        n = int(v)
+        return lo <= n <= hi and (ranges is None or any(a <= n <= b for a, b in ranges))
+    return ok
+
+
+def _str_ok(lo=0, hi=10 ** 9, pattern=None):
+    import re as _re
+    return lambda v: lo <= len(v) <= hi and (pattern is None or _re.fullmatch(pattern, v) is not None)
+
+
+def _b64_len(v):
+    import base64
+    try:
+        return len(base64.b64decode(v, validate=True)) if len(v) % 4 == 0 else None
+    except Exception:
+        return None
+
+
+IDS = ["mi:A", "mi:C", "mi:D", "mi:E", "mi:F", "mi:AX", "m1:G", "m1:H", "m1:K", "m1:L", "mi:nope"]
+# (leaf name, type text, predicate, candidate values, JSON kind)
+TYPE_LEAVES = [
+    ("i8", "type int8 { range \"-5..5 | 20\"; }", _int_ok(-128, 127, [(-5, 5), (20, 20)]), ["-5", "5", "6", "20", "21", "-6", "+3", "128", "x", "1.0", ""], "n"),
+    ("u16", "type uint16;", _int_ok(0, 65535), ["0", "65535", "65536", "-1", "12"], "n"),
+    ("i64", "type int64 { range \"min..0\"; }", _int_ok(-2 ** 63, 0), ["-9223372036854775808", "-9223372036854775809", "0", "1"], "s"),
+    ("u64", "type uint64;", _int_ok(0, 2 ** 64 - 1), ["18446744073709551615", "18446744073709551616", "0"], "s"),
+    ("d2", "type decimal64 { fraction-digits 2; range \"-1.5..1.5\"; }",
+     lambda v: __import__("re").fullmatch(r"[+-]?[0-9]+(\.[0-9]{1,2})?", v) is not None and -1.5 <= float(v) <= 1.5,
+     ["1.5", "1.51", "-1.5", "0", "1.234", "abc", "-1.50"], "s"),
+    ("s", "type string { length \"2..4\"; pattern '[a-c]*'; }", _str_ok(2, 4, "[a-c]*"), ["ab", "abca", "abcab", "a", "abd", "cc"], "s"),
+    ("bo", "type boolean;", lambda v: v in ("true", "false"), ["true", "false", "True", "1"], "b"),
+    ("bi", "type binary { length \"1..3\"; }", lambda v: _b64_len(v) is not None and 1 <= _b64_len(v) <= 3, ["YQ==", "YWJj", "YWJjZA==", "", "Y"], "s"),
+    ("en", "type enumeration { enum one; enum two { if-feature fx; } enum three; }", lambda v: v in ("one", "three"), ["one", "two", "three", "four"], "s"),
+    ("bt", "type bits { bit b0; bit b1 { if-feature fx; } bit b2; }",
+     lambda v: all(x in ("b0", "b2") for x in v.split()) and len(set(v.split())) == len(v.split()), ["b0", "b0 b2", "b1", "b0 b1", "b9", "b2 b0"], "s"),
+    ("un", "type union { type int8 { range \"0..10\"; } type enumeration { enum up; enum down; } type string { pattern 'x[0-9]+'; } }",
+     lambda v: _int_ok(-128, 127, [(0, 10)])(v) or v in ("up", "down") or __import__("re").fullmatch("x[0-9]+", v) is not None,
+     ["7", "11", "up", "x12", "y1", "-1", "down"], "s"),
+    ("ir1", "type identityref { base mi:A; }", idref_ok(["mi:A"]), IDS, "s"),
+    ("ir2", "type identityref { base mi:A; base mi:B; }", idref_ok(["mi:A", "mi:B"]), IDS, "s"),
+    ("ir3", "type identityref { base mi:A; base mi:B; base mi:X; }", idref_ok(["mi:A", "mi:B", "mi:X"]), IDS, "s"),
+    ("irg", "type identityref { base G; base mi:X; }", idref_ok(["m1:G", "mi:X"]), IDS, "s"),
+]
+TYPE_M1 = """module m1 { yang-version 1.1; namespace "urn:verif:m1"; prefix m1; import mi { prefix mi; }
+  feature fx;
+  identity G { base mi:C; base mi:F; }
+  identity H { base mi:E; }
+  identity K { base G; base mi:X; }
+  identity L;
+  container tt {
+%s
+    leaf-list tg { type string; }
+    leaf lrt { type leafref { path "../tg"; } }
+    leaf lrf { type leafref { path "../tg"; require-instance false; } }
+    leaf iit { type instance-identifier; }
+    leaf iif { type instance-identifier { require-instance false; } }
+  }
+}""" % "\n".join("    leaf %s { %s }" % (nm, ty) for nm, ty, _, _, _ in TYPE_LEAVES)
+
+
+def type_family_cases():
+    """one document per (leaf, candidate value): accepted exactly when the value is in the value space of the type"""
+    import json
+    L = []
+
+    def doc(name, v, kind, cls, extra_x="", extra_j=None):
+        ns = ' xmlns:mi="urn:verif:mi" xmlns:m1="urn:verif:m1"' if name.startswith(("ir", "ii")) else ""
+        x = '<tt xmlns="urn:verif:m1">%s<%s%s>%s</%s></tt>' % (extra_x, name, ns, yanggen.xml_text(v), name)
+        jv, json_ok = v, True
+        if kind == "n" or name == "un":
+            if re.fullmatch(r"-?[0-9]+", v):
+                jv = int(v)
+            elif kind == "n":
+                json_ok = False         # RFC 7951 6.1: a number; other lexical forms are an XML matter
+        elif kind == "b":
+            if v in ("true", "false"):
+                jv = (v == "true")
+            else:
+                json_ok = False
+        if name.startswith("ii"):
+            json_ok = False             # RFC 7951 6.11 has its own instance-identifier syntax
+        o = dict(extra_j or {})
+        o[name] = jv
+        j = json.dumps({"m1:tt": o})
+        cmds = [("mod", hexs(TYPE_MI), CTX_NO_YANGLIBRARY), ("mod", hexs(TYPE_M1)),
+                ("parse", "t0", "x", PARSE_STRICT, 0, hexs(x)),
+                ("parse", "t3", "x", PARSE_ONLY | PARSE_STRICT, 0, hexs(x)), ("val", "t3", 0, "m"),
+                ("parse", "t5", "x", PARSE_ONLY | PARSE_STRICT, 0, hexs(x)), ("val", "t5", VAL_MULTI)]
+        routes = ["S1", "v", "pv", "Apv"]
+        if json_ok:
+            cmds += [("parse", "t1", "j", PARSE_STRICT, 0, hexs(j)),
+                     ("parse", "t4", "j", PARSE_ONLY | PARSE_STRICT, 0, hexs(j)), ("val", "t4", VAL_MULTI, "m")]
+            routes += ["v", "Apv"]
+        return "valid\t#x %s\t#r %s\t%s" % (cls, ",".join(routes), "\t".join(" ".join(str(w) for w in c) for c in cmds))
+    for name, _, ok, cands, kind in TYPE_LEAVES:
+        for v in cands:
+            L.append(doc(name, v, kind, "0" if ok(v) else "type"))
+    tg_x, tg_j = "<tg>t1</tg><tg>t2</tg>", {"tg": ["t1", "t2"]}
+    for name, v, cls in (("lrt", "t2", "0"), ("lrt", "t3", "noinst"), ("lrf", "t3", "0"), ("lrf", "t1", "0"),
+                         ("iit", "/m1:tt/m1:tg[.='t1']", "0"), ("iit", "/m1:tt/m1:tg[.='t9']", "noinst"),
+                         ("iif", "/m1:tt/m1:tg[.='t9']", "0"), ("iif", "/m1:tt/m1:nosuch", "type")):
+        L.append(doc(name, v, "s", cls, tg_x, tg_j))
+    return L
+
+
 def valid_instance(rng, m, ig):
     for _ in range(12):
         f = ig.forest(m)
@@ -783,7 +993,11 @@ class ValidModel(Comp):
     def gen(self, rng, tier, scale=1.0):
         pre = []
         for i in range(self.n(tier, 2500, 40000, scale)):
-            if i % 12 == 3:
+            if i % 12 == 10:
+                m, g = lead_default_family(rng)
+                ig = yanggen.InstGen(rng, meta_prob=0.0)
+                f = g
+            elif i % 12 == 3:
                 m, g, _ = nested_family(rng, xpath=False)
                 ig = yanggen.InstGen(rng, meta_prob=0.0)
                 f = g
@@ -1119,7 +1333,11 @@ class ValidMut(Oracle):
     hashes collide below a parent with a children hash table; every case also with LYD_VALIDATE_MULTI_ERROR on each
     entry point (accept / reject must not change; half of the modules have trailing leaves with a when); histories: a
     node added by lyd_new_term / lyd_new_list2 to the validated valid tree (duplicate, also in another lexical form, or
-    a fresh value as control), then lyd_validate_all / lyd_validate_module."""
+    a fresh value as control), then lyd_validate_all / lyd_validate_module; families: implicit nodes under nested
+    choices (nested_family), a case that starts with implicit defaults and is selected by a later sibling
+    (lead_default_family), several unique statements (unique_family), type restrictions of every built-in type incl.
+    identityref with 1-3 bases over an identity hierarchy in two modules, enums / bits under if-feature, union
+    fall-through, leafref / instance-identifier with and without require-instance (type_family_cases)."""
     name = "validmut"
     driver = "t_valid"
 
@@ -1163,6 +1381,12 @@ class ValidMut(Oracle):
         for i in range(self.n(tier, 250, 4000, scale)):
             m, g, exp = nested_family(rng, xpath=(i % 5 != 0))
             L.append(self.case(rng, m, g, "+".join(sorted(exp)) if exp else None))
+        # a case that starts with implicit defaults and is selected by a later sibling
+        for i in range(self.n(tier, 250, 4000, scale)):
+            m, g = lead_default_family(rng)
+            v = validenc.py_violations(m, g)
+            L.append(self.case(rng, m, g, "+".join(sorted(v)) if v else None))
+        L += type_family_cases()
         # XPath-dependent rules (not in the Coq models): fixed extra modules
         ymod = 'module m1 { yang-version 1.1; namespace "urn:verif:m1"; prefix m1;%s}' % EXTRA_YANG
         for kind in (None, "leafref", "must", "when", "instid", "iffeature"):
@@ -1264,6 +1488,11 @@ class ValidMut(Oracle):
                 if got == "other!rc=9/vecode=0" and exp == "0":
                     return ("lyb-when-not-evaluated", "LYB parsed with validation: LY_EINCOMPLETE without a message, a must reads a "
                                                       "node whose when was never evaluated")
+            elif rt[0] == "S":
+                # setup commands (a further module): must answer 0, not judged
+                n = int(rt[1:])
+                got = exp if all(x == "0" for x in r[k:k + n]) else "setup:" + "|".join(r[k:k + n])
+                k += n
             elif rt[0] == "H":
                 # history: n commands, the last one is the validation; a step that cannot be made is not judged
                 n = int(rt[1:])
@@ -1297,6 +1526,8 @@ class ValidMut(Oracle):
                 k += n + 1
                 if got.split("!")[0] == "other":
                     got = exp           # lyd_new_path refuses some invalid constructions with its own errors
+            if exp == "type" and got != "0" and "!rc" not in got and got.split("!")[0] in ("other", "noinst", "type"):
+                got = exp               # a value outside the value space: LY_EVALID / LYVE_DATA, the message wording varies
             if "+" in exp and got in exp.split("+"):
                 got = exp               # several rules violated: the first one found is reported
             if accept_only and (got == "0") == (exp == "0") and not got.startswith("other"):
